@@ -1,6 +1,7 @@
 import WebpVerif.Model.ReadImage
 import WebpVerif.Props.C05
 import WebpVerif.Lemmas.LLoopInit
+import WebpVerif.Props.C01
 
 /-!
 # C11 — output buffers: size checked, every byte written, all wrappings agree
@@ -148,5 +149,50 @@ theorem lossless_loop_init_independent (c : LLoop.Cfg) (h32 : c.cacheBits ≤ 32
     (hcons : LLoop.cons c (c.width * c.height + 1) 0 0 ops = true) :
     LLoop.decode c init1 ops = LLoop.decode c init2 ops :=
   LLoop.decode_init_independent c h32 hw init1 init2 ops h1 h2 hcons
+
+
+/-! ### the in-place inverse transforms -/
+
+/-- **The in-place colour-indexing transform does not depend on the stale part of the buffer.**
+    `apply_color_indexing_transform` expands the packed index image - the first `⌈w/2^wb⌉·h` pixels
+    of the `w·h` buffer - inside the same buffer; the rest of the buffer holds whatever was there.
+    Two buffers that agree on the packed part give the same pixels, for every palette of 1..16
+    colours, width, height and stale contents.  Corollary of `C01.color_indexing_in_place`. -/
+theorem color_indexing_init_independent (pal : Array Nat) (w h : Nat) (d d' : Array Nat) (hts : 1 ≤ pal.size ∧ pal.size ≤ 16)
+    (hw : 1 ≤ w) (hsz : d.size = w * h) (hsz' : d'.size = w * h)
+    (hagree : ∀ i, i < VP8L.subSize w (VP8L.indexBits pal.size) * h → d[i]! = d'[i]!)
+    (x y : Nat) (hx : x < w) (hy : y < h) :
+    (CIdx.apply pal pal.size w h d)[y * w + x]! = (CIdx.apply pal pal.size w h d')[y * w + x]! := by
+  rw [C01.color_indexing_in_place pal w h d hts hw hsz x y hx hy, C01.color_indexing_in_place pal w h d' hts hw hsz' x y hx hy]
+  unfold C01.specIndexPixel
+  simp only []
+  have hB : 0 < 2 ^ VP8L.indexBits pal.size := Nat.two_pow_pos _
+  have hlt : x / 2 ^ VP8L.indexBits pal.size < VP8L.subSize w (VP8L.indexBits pal.size) := by
+    unfold VP8L.subSize
+    rw [Nat.div_lt_iff_lt_mul hB]
+    have := Nat.div_add_mod (w + 2 ^ VP8L.indexBits pal.size - 1) (2 ^ VP8L.indexBits pal.size)
+    have := Nat.mod_lt (w + 2 ^ VP8L.indexBits pal.size - 1) hB
+    rw [Nat.mul_comm]
+    omega
+  have hidx : y * VP8L.subSize w (VP8L.indexBits pal.size) + x / 2 ^ VP8L.indexBits pal.size < VP8L.subSize w (VP8L.indexBits pal.size) * h := by
+    have : (y + 1) * VP8L.subSize w (VP8L.indexBits pal.size) ≤ h * VP8L.subSize w (VP8L.indexBits pal.size) := Nat.mul_le_mul_right _ hy
+    rw [Nat.succ_mul] at this
+    rw [Nat.mul_comm _ h]; omega
+  rw [hagree _ hidx]
+
+/-- **The other three in-place inverse transforms are functions of the pixels alone.**  The buffer
+    the predictor, colour and subtract-green drivers work on was written completely by the pixel
+    loop (`lossless_loop_init_independent`); what they leave in it is the specification's pure
+    function of those pixels (`C01.predictor_transform_is_spec`, `color_transform_is_spec`,
+    `subtract_green_is_spec`) - nothing else (no scratch space, no earlier contents) enters. -/
+theorem inverse_transforms_are_functions_of_the_pixels (a d : Array Nat) (w h bits : Nat) (hw : 0 < w) (hh : 0 < h)
+    (hs : a.size = 4 * (w * h)) (hb : LTrProof.Bytes a) (hd : LTrProof.Bytes d) (hd4 : d.size % 4 = 0)
+    (hmode : ∀ k, d.getD (4 * k + 1) 0 < 14) :
+    LTrProof.pixels (LTr.applyPredictor w h bits d a) = VP8LP.invPredictor bits (LTrProof.pixels d).toArray w (LTrProof.pixels a) 0 [] ∧
+    LTrProof.pixels (LTr.applyColor w bits d a) = VP8LP.invColor bits (LTrProof.pixels d).toArray w (LTrProof.pixels a) 0 ∧
+    LTrProof.pixels (LTr.applySubGreen a) = (LTrProof.pixels a).map VP8LP.invSubGreenPx :=
+  ⟨C01.predictor_transform_is_spec a d w h bits hw hh hs hb hd hd4 hmode,
+   C01.color_transform_is_spec w h bits d a hb hd hd4 (by rw [hs, Nat.mul_assoc]) hw,
+   C01.subtract_green_is_spec a hb (by omega)⟩
 
 end C11
